@@ -157,3 +157,54 @@ def nesting_texts(rng, maxn=80):
 
 def hx(b):
     return b.hex() if b else "-"
+
+
+def number_edges():
+    """number spellings at the overflow / underflow boundaries, with every mantissa width 1..19 (the fast-path guards of the number
+    parser depend on the digit count): just below / at / above the first decimal that rounds to infinity, around half the smallest
+    subnormal, integer-kind boundaries"""
+    from fractions import Fraction as F
+    out = []
+    dmax = F((2 ** 53 - 1) * 2 ** 971)
+    over = dmax + F(2) ** 969
+    tiny = F(1, 2 ** 1075)
+    for nd in range(1, 20):
+        e = 308 - (nd - 1)
+        m_over = -((-over.numerator) // (over.denominator * 10 ** e))
+        for m in (m_over - 1, m_over, m_over + 1):
+            if m > 0:
+                out.append(b"%de%d" % (m, e))
+                out.append(b"-%dE+%d" % (m, e))
+                if nd > 1:
+                    ms = str(m)
+                    out.append((ms[0] + "." + ms[1:] + "e308").encode())
+        e2 = -324 - (nd - 1)
+        m_t = (tiny.numerator * 10 ** (-e2)) // tiny.denominator
+        for m in (m_t, m_t + 1):
+            if m > 0:
+                out.append(b"%de%d" % (m, e2))
+    for base in (2 ** 63, 2 ** 64):
+        for d in (-1, 0, 1):
+            out.append(str(base + d).encode())
+            out.append(b"-" + str(base + d).encode())
+    out += [b"1e308", b"1e309", b"1.8e308", b"2e308", b"1e400", b"1e-400", b"-1e309", b"0e999999", b"1e99999", b"17976931348623159e292"]
+    return out
+
+
+def ctrl_strings(rng, quick):
+    """string-literal bodies (raw bytes between the quotes) containing ONE raw control byte < 0x20 placed after an escape sequence, at
+    every distance from the start and from the closing quote that matters for 16/32-byte block scanners; each is invalid JSON"""
+    out = []
+    escs = [b"\\n", b'\\"', b"\\\\", b"\\u0041", b"\\ud83d\\ude00", b""]
+    A = list(range(0, 72))
+    B = [0, 1, 5, 13, 14, 15, 16, 17, 28, 29, 30, 31, 32, 33, 47, 62, 63, 64, 65]
+    C = [0, 1, 7, 15, 16, 31, 32]
+    if quick:
+        A = rng.sample(A, 14) + [0, 31]
+    for a in A:
+        for b in (rng.sample(B, 5) if quick else B):
+            for c in (rng.sample(C, 2) if quick else C):
+                esc = rng.choice(escs)
+                ctrl = rng.choice([0x00, 0x01, 0x09, 0x0A, 0x0D, 0x1F])
+                out.append(b"x" * a + esc + b"y" * b + bytes([ctrl]) + b"z" * c)
+    return out
